@@ -18,7 +18,7 @@ func TestProp(t *testing.T) {
 	logrus.SetOutput(ioutil.Discard)
 	env := vh.GetEnv()
 	rep := vh.NewReport("C17", "exploration")
-	rep.Rule("question sequences: (okta) 10-30 steps of ask(user, permuted group subset, sometimes with a duplicate) / directory change / inner error / sleep past a 30-50 ms TTL against the real GroupCache+LocalCache, 12% with three concurrent askers; (okta-probe) pairs of different questions whose joined cache keys could coincide; (google, cognito) 5-9 steps of ask / concurrent ask pair / directory change / direct refresh / failing direct check / held fill against the real provider + real PopulateMembers + real FillCache, groups pre-filled, failing or held. FillCache histories: (fc-seq) 10-24 scripted Update/Get steps with fill outcomes ok/error/not-found plus one refresh loop; (fc-conc) 1-3 groups, held fills, 2-4 free-running workers, 35% with refresh loops (5-20 ms) and Stop. distinct = per question (user class, set size, relation to earlier questions, hit/miss/error) resp. (set size, definitely cached, definitely uncached, source) sequences; for FillCache the per-group operation shape (admitted/rejected begins, store/keep/delete ends, gets by version rank, overlap marks)")
+	rep.Rule("question sequences: (okta) 10-30 steps of ask(user, permuted group subset, sometimes with a duplicate) / directory change / inner error (generic, wrapped, and the real providers.Err* / circuit-open / group-not-found values) / 'user who asked about A asks about a new related set B while the directory fails' / sleep past a 30-50 ms TTL against the real GroupCache+LocalCache, 12% with three concurrent askers; (okta-probe) pairs of different questions whose joined cache keys could coincide; (google, cognito) 5-9 steps of ask / concurrent ask pair / directory change / direct refresh / failing direct check / held fill against the real provider + real PopulateMembers + real FillCache, groups pre-filled, failing or held. FillCache histories: (fc-seq) 10-24 scripted Update/Get steps with fill outcomes ok/error/not-found plus one refresh loop; (fc-conc) 1-3 groups, held fills, 2-4 free-running workers, 35% with refresh loops (5-20 ms) and Stop. distinct = per question (user class, set size, relation to earlier questions, hit/miss/error) resp. (set size, definitely cached, definitely uncached, source) sequences; for FillCache the per-group operation shape (admitted/rejected begins, store/keep/delete ends, gets by version rank, overlap marks)")
 	rep.Assume("the fake directory answers exactly as logged; a member list carries a marker member naming group and version so that a cached list identifies the directory answer it copies")
 	rep.Assume("okta stream: group names are strings GetProfile can produce (strings.Split of the form value on ','): no commas, the empty name never alone; comma-containing names are probed separately (okta-probe) and carry their input class in the signature")
 	rep.Assume("after Stop a refresh loop may still take ticks that were ready together with the stop signal (Go select is random among ready cases): the number of periodic fills after Stop is geometric when iterations are slower than the TTL; up to 20 per group are tolerated, a loop that does not stop passes any bound")
@@ -82,6 +82,14 @@ func TestProp(t *testing.T) {
 		rep.Floor("fills_error", 50)
 		rep.Floor("fills_notfound", 20)
 		rep.Floor("probe_pairs_kept_apart", 10)
+		for _, k := range errKinds[1:] {
+			rep.Floor("okta_error_on_miss_after_success_for_other_set_"+k.name, 20)
+			if k.name != "group-not-found" {
+				rep.Floor("fills_error_"+k.name, 20)
+			}
+			rep.Floor("google_direct_errors_"+k.name, 3)
+			rep.Floor("cognito_direct_errors_"+k.name, 3)
+		}
 	}
 	if st := rep.Finish(); st == "violated" {
 		t.Fatalf("C17 violated")
